@@ -1,12 +1,15 @@
 import Tmcg.Driver
 import Tmcg.DriverRbc
 import Tmcg.DriverPgp
+import Tmcg.DriverOt
+import Tmcg.DriverRabin
+import Tmcg.DriverDkg
 
 partial def loop (h : IO.FS.Stream) (out : IO.FS.Stream) : IO Unit := do
   let line ← h.getLine
   if line.isEmpty then return ()
   let l := if line.back == (Char.ofNat 10) then (line.dropEnd 1).toString else line
-  out.putStrLn (Tmcg.Driver.processLineWith (Tmcg.Driver.handlers ++ Tmcg.DriverRbc.handlers ++ Tmcg.DriverPgp.handlers) l)
+  out.putStrLn (Tmcg.Driver.processLineWith (Tmcg.Driver.handlers ++ Tmcg.DriverRbc.handlers ++ Tmcg.DriverPgp.handlers ++ Tmcg.DriverOt.handlers ++ Tmcg.DriverRabin.handlers ++ Tmcg.DriverDkg.handlers) l)
   loop h out
 
 def main : IO Unit := do
